@@ -115,7 +115,8 @@ def docDocS (t : Table) (key : String) (c : Option DocC) : String :=
     "];r=[" ++ ",".intercalate (c.returns.map fun (i, m) => (match i with | none => "none" | some i => hsStr i) ++ "=" ++ msgDocS t key m) ++
     "];s=[" ++ ",".intercalate (c.see.map (linkDocS t key)) ++ "])"
 
-/-- `none` = some comment makes the parser panic (the whole compilation dies) -/
+/-- `none` = some comment makes the parser panic (the whole compilation would die; with the code's sanitizer this cannot
+    happen, `Props/C16.attach_total`) -/
 def docsDumpG (san : Sanitizer) (p : Program) : Option String :=
   let t := buildTable p
   let perFile : List (Option (String × List LintCode)) := p.map fun f =>
@@ -136,6 +137,5 @@ def docsDumpG (san : Sanitizer) (p : Program) : Option String :=
 
 def docsDump (p : Program) : Option String := docsDumpG sanitizeMessageLines p
 def docsDumpSpec (p : Program) : Option String := docsDumpG (fun ls => .ok (sanitizeSpec ls)) p
-def docsDumpChars (p : Program) : Option String := docsDumpG (fun ls => .ok (sanitizeChars ls)) p
 
 end Slicec
